@@ -7,6 +7,7 @@ package bam
 import (
 	"bytes"
 	"encoding/binary"
+	"encoding/hex"
 	"errors"
 	"fmt"
 	"io"
@@ -348,7 +349,20 @@ func parseAux(aux []byte) ([]sam.Aux, error) {
 				if j == -1 {
 					return nil, errors.New("bam: invalid zero terminated data: no zero")
 				}
-				aa = append(aa, sam.Aux(aux[i:i+j:i+j]))
+				if t == 'H' {
+					// BAM holds an H value as its hexadecimal digits; a sam.Aux
+					// holds the bytes those digits stand for. Decode in place.
+					if j < 3 {
+						return nil, errors.New("bam: invalid zero terminated data: short field")
+					}
+					n, err := hex.Decode(aux[i+3:], aux[i+3:i+j])
+					if err != nil {
+						return nil, fmt.Errorf("bam: invalid hex data: %v", err)
+					}
+					aa = append(aa, sam.Aux(aux[i:i+3+n:i+3+n]))
+				} else {
+					aa = append(aa, sam.Aux(aux[i:i+j:i+j]))
+				}
 				i += j + 1
 			case 'B':
 				length := binary.LittleEndian.Uint32(aux[i+4 : i+8])
@@ -494,10 +508,20 @@ func newBuffer(br *Reader) (*buffer, error) {
 func buildAux(aa []sam.Aux) (aux []byte) {
 	for _, a := range aa {
 		// TODO: validate each 'a'
-		aux = append(aux, []byte(a)...)
 		switch a.Type() {
-		case 'Z', 'H':
+		case 'H':
+			// The bytes of an H value are stored as hexadecimal digits.
+			const digits = "0123456789ABCDEF"
+			aux = append(aux, a[:3]...)
+			for _, b := range a[3:] {
+				aux = append(aux, digits[b>>4], digits[b&0xf])
+			}
 			aux = append(aux, 0)
+		case 'Z':
+			aux = append(aux, []byte(a)...)
+			aux = append(aux, 0)
+		default:
+			aux = append(aux, []byte(a)...)
 		}
 	}
 	return
